@@ -249,8 +249,32 @@ impl Run {
 
     /// Write evidence, print verdict lines, exit.
     pub fn finish(self) -> ! {
+        self.finish_ref()
+    }
+
+    /// Same as `finish`, for a `Run` that is shared by reference.
+    pub fn finish_ref(&self) -> ! {
         let wall = self.start.elapsed().as_secs_f64();
-        let g = self.inner.into_inner().unwrap();
+        let g = {
+            let mut guard = self.inner.lock().unwrap();
+            std::mem::replace(
+                &mut *guard,
+                Inner {
+                    counters: BTreeMap::new(),
+                    distinct: HashSet::new(),
+                    distinct_nontrivial: 0,
+                    outcomes: HashSet::new(),
+                    samples: vec![],
+                    assumptions: vec![],
+                    rule: String::new(),
+                    extras: Map::new(),
+                    new_violations: BTreeMap::new(),
+                    known_hits: BTreeMap::new(),
+                    caps: vec![],
+                    exhaustive: true,
+                },
+            )
+        };
         let evid_dir = self.root.join("evidence");
         let _ = std::fs::create_dir_all(&evid_dir);
         let replay_dir = self.root.join("replays");
